@@ -266,7 +266,88 @@ def bounded(tier, seed, procs):
     if not ok:
         b2.fail(Failure("wrap-helpers", "what=multivector", dict(kind="mv"), expected="componentwise", actual=outcome.describe(r)[:200], functions=["make_common_subexpression"]))
     from props import c02 as P2
-    return [b, b2, P2.cse_once(tier)]
+    return [b, b2, P2.cse_once(tier), b_histogram_tagger(tier)]
+
+
+def b_histogram_tagger(tier):
+    """The histogram-based tagger (cse_tagger): CSEWalkMapper counts structurally equal subexpressions, CSETagMapper wraps the repeated ones."""
+    import pymbolic.primitives as p
+    from pymbolic.mapper.cse_tagger import CSETagMapper, CSEWalkMapper
+    from pymbolic.mapper.evaluator import EvaluationMapper
+    b = BoundedRun("histogram-tagger", rule="CSEWalkMapper + CSETagMapper on every expression of the pool and on sums / products of two pool expressions: the histogram equals an "
+                   "independent count of structurally equal subexpression occurrences; the tagged expression has the input's value in every environment of the box; with one "
+                   "evaluator every operation (exactly equal subexpression) that occurred more than once in the input is performed once",
+                   bound="20 pool expressions + 190 pairs x 3 environments", functions=["CSEWalkMapper.visit", "CSETagMapper.map_*"])
+    pl = [e for e in pool() if not any(isinstance(n, p.CommonSubexpression) and n.prefix for n in _nodes(e))]
+    exprs = list(pl) + [p.Sum((u, v)) for u, v in itertools.combinations(pl, 2)][: (190 if tier == "thorough" else 60)]
+    envs = [{"x": vx, "y": vy, "z": 3, "f": lambda a, c: a * 7 + c} for vx, vy in [(2, 5), (-1, 4), (Fraction(1, 2), 3)]]
+    for e in exprs:
+        w = CSEWalkMapper()
+        r0 = outcome.run(lambda: w(e))
+        ref = Counter()
+        for n in _nodes(e):
+            ref[n] += 1
+        b.case(("hist", repr(e)), sample=dict(expr=repr(e)[:100]))
+        if r0[0] != "val" or {k: v for k, v in w.subexpr_histogram.items() if isinstance(k, p.Expression)} != dict(ref):
+            b.fail(Failure("histogram-tagger", f"what=histogram expr={e!r}", dict(kind="hist", expr=repr(e)), expected="occurrence counts", actual=outcome.describe(r0)[:100],
+                           functions=["CSEWalkMapper.visit"]))
+            continue
+        r = outcome.run(lambda: CSETagMapper(w)(e))
+        if r[0] != "val":
+            b.fail(Failure("histogram-tagger", f"what=tag-raised expr={e!r}", dict(kind="hist", expr=repr(e)), expected="a tagged expression", actual=outcome.describe(r)[:150],
+                           functions=["CSETagMapper"]))
+            continue
+        why = None
+        for env in envs:
+            ev, counts = counting_evaluator(env)
+            got = outcome.run(lambda: ev(r[1]))
+            want = outcome.run(lambda: EvaluationMapper(env)(e))
+            if not outcome.equivalent(got, want, None, typed=False):
+                why = f"value changed: {outcome.describe(got)} vs {outcome.describe(want)}"
+                break
+            over = [k for k, n in counts.items() if n > 1]
+            exact_counts = Counter()
+            ev2, _ = counting_evaluator(env)
+            if over:
+                # 'counts' is keyed up to commutation; decide on exact structural equality with a second instrumented run
+                hits = Counter()
+
+                class Exact(EvaluationMapper):
+                    pass
+                for nm in ("map_sum", "map_product", "map_quotient", "map_floor_div", "map_remainder", "map_power", "map_call"):
+                    def mk(nm):
+                        base = getattr(EvaluationMapper, nm)
+
+                        def h(self, ex):
+                            hits[ex] += 1
+                            return base(self, ex)
+                        return h
+                    setattr(Exact, nm, mk(nm))
+                Exact(env)(r[1])
+                rep = [k for k, n in hits.items() if n > 1]
+                if rep:
+                    why = f"operation performed {hits[rep[0]]} times: {rep[0]!r}"
+                    break
+        if why:
+            b.fail(Failure("histogram-tagger", f"what=tagged expr={e!r} why={why[:80]}", dict(kind="hist", expr=repr(e)), expected="same value, repeated operations once", actual=why[:200],
+                           functions=["CSETagMapper.map_*"]))
+    return b
+
+
+def _nodes(e):
+    import pymbolic.primitives as p
+    if isinstance(e, p.Expression):
+        yield e
+        for c in api_children(e):
+            yield from _nodes(c)
+    elif isinstance(e, (tuple, list)):
+        for c in e:
+            yield from _nodes(c)
+
+
+def api_children(e):
+    from pyvc import api
+    return [c for c in api.children(e) if c is not None]
 
 
 def replay(case):
